@@ -442,6 +442,9 @@ structure Builtin where
   fn : Option FnV := Option.none
   /-- … otherwise its facets other than whiteSpace / pattern -/
   facets : List Facet := []
+  /-- the built-in is xs:QName or xs:NOTATION (`name in QNAME_TAGS`): the length family is not checked on the ATOMIC
+      types derived from it (facets.py:194-197, W3C bug 4009); see `Model/DatatypesPat.applyExempt` -/
+  lenExempt : Bool := false
   deriving Repr, Inhabited
 
 mutual
